@@ -29,10 +29,11 @@ renderer model (`Model/Render*.lean`):
 
 A source change in one of these blocks changes the regenerated text, hence the atoms the interpreter
 reads (`Atom.unknown` for a text it does not know) and breaks exactly the theorem of that block.
-Hand-written and pinned by `Props.C01Facts.facts_render` only: the ORDER in which the blocks follow each
-other in the loop body and in `render()` (`iterI`, `rowsI`, `renderBodyI` glue the interpreted blocks in
-source order; the loop headers `for col := 0; col < len(row); col += 1` and `for row := range …` with
-`reposition = true; dirty := 0` are in that glue), and the inner lines of the colour / attribute / underline
+Hand-written: the ORDER in which the blocks follow each other in the loop body and in `render()` (`iterI`,
+`rowsI`, `renderBodyI` glue the interpreted blocks in source order; the loop headers `for col := 0; col <
+len(row); col += 1` and `for row := range …` with `reposition = true; dirty := 0` are in that glue) — tied to
+the source by `cell_loop_order` (the top-level statements of the loop body, read by the interpreter, are exactly
+that sequence, and the five blocks concatenated ARE the loop body) and by `Props.C01Facts.facts_render`, and the inner lines of the colour / attribute / underline
 blocks (executed as wholes; their tables and order are interpreted by `attrToks_from_source` / `penDelta_order`).
 -/
 import VaxisModel.Model.RenderInterp
@@ -657,6 +658,31 @@ theorem nullLoop_body_eq_model (cw : String → Nat) (caps : Caps) (L : List Cel
     rw [show skip + 6 = (skip + 5) + 1 from rfl]; simp [exec]
   simp [exec, List.takeWhile, List.dropWhile, hx1, a1, a2, a3, a4, a5, a6, b1, b2, b3, b4, b5, b6]
 
+/-! ### the order of the blocks -/
+
+/-- The body of `for col := 0; col < len(row); col += 1 { … }`. -/
+def loopBody : List Line := (blockAt G 1 "for" "col:=0;col<len(vx.screenNext.buf[row]);col+=1").drop 1
+
+/-- **cell_loop_order**: the top-level statements of the cell loop's body, as the interpreter reads them on
+    this run, are — in this order — the blocks `iterI` glues: load `next`; image cell?; clip; unchanged?;
+    `dirty` extension; copy into `last`; reposition; the five colour / attribute / underline blocks; hyperlink;
+    `cursor = next.Style`; width resolution; the write `switch`; `skip := advance(next)`; nulling loop;
+    `col += skip`.  And the row loop is `for row := range … { reposition = true; dirty := 0; for col … }`
+    (`rowsI`).  (The order is what `iterI` / `rowsI` hand-code; this theorem ties it to the source.) -/
+theorem cell_loop_order :
+    ((prune (prog loopBody)).filter (fun l => l.1 == 2)).map (fun l => (l.2.1, l.2.2)) =
+      [(Kind.stmt, Atom.loadNext), (Kind.if_, Atom.nextSixel), (Kind.if_, Atom.nextTooWide), (Kind.if_, Atom.unchanged),
+       (Kind.if_, Atom.endLastDirty), (Kind.stmt, Atom.lastNext), (Kind.if_, Atom.reposition), (Kind.stmt, Atom.fgDelta),
+       (Kind.stmt, Atom.bgDelta), (Kind.stmt, Atom.ulDelta), (Kind.stmt, Atom.attrDelta), (Kind.stmt, Atom.ulStyleDelta),
+       (Kind.if_, Atom.linkChanged), (Kind.stmt, Atom.cursorNextStyle), (Kind.if_, Atom.nextWidth0), (Kind.switch_, Atom.none_),
+       (Kind.stmt, Atom.skipAdvance), (Kind.stmt, Atom.nullLoop), (Kind.stmt, Atom.colSkip)] := by
+  decide +kernel
+
+theorem row_loop_order :
+    (prog (blockAt G 0 "range" "row:=range vx.screenNext.buf")).filter (fun l => l.1 ≤ 1) =
+      [(0, Kind.for_, Atom.rowRange), (1, Kind.stmt, Atom.repTrue), (1, Kind.stmt, Atom.dirtyZero), (1, Kind.for_, Atom.colLoop)] := by
+  decide +kernel
+
 /-! ### the whole row loop -/
 
 /-- After the write `switch`: `skip := vx.advance(next)`, the second nulling loop, `col += skip`. -/
@@ -664,6 +690,11 @@ def tailBlock : List Line :=
   (G.dropWhile (fun l => !(l.1 == 2 && l.2.1 == "assign" && l.2.2 == "skip:=vx.advance(next)"))).takeWhile (fun l => decide (2 ≤ l.1))
 
 theorem tail_prog : prune (prog tailBlock) = [(2, .stmt, .skipAdvance), (2, .stmt, .nullLoop), (2, .stmt, .colSkip)] := by
+  decide +kernel
+
+/-- Every block the theorems above run is cut out of the loop body: concatenated they ARE the body (after `next := …`). -/
+theorem blocks_are_the_loop_body :
+    sixelBlock ++ clipBlock ++ unchangedBlock ++ writtenPath ++ tailBlock = loopBody.drop 1 := by
   decide +kernel
 
 theorem tail_body_eq_model (cw : String → Nat) (caps : Caps) (m : Cell) (col : Nat) :
